@@ -23,7 +23,7 @@ LEVEL_TEXT["C06"] = (
 )
 
 PROPS["C06"] = {
-    "gen": ["Cmplx", "Dynamics", "Slice", "StepsBase", "StepsArray", "StepsSlice", "StepsFir", "StepsDelay"],
+    "gen": ["Cmplx", "Dynamics", "Slice", "StepsBase", "StepsArray", "StepsSlice", "StepsFir", "StepsDelay", "CtorFir", "CtorDelay"],
     "lean_props": ["DspVerif.Props.C06", "DspVerif.Props.C06Gen"],
     "harness": [{"src": "c06.cpp", "cfg": "rel",
                  "tol": {"frame": (1e-11, 1e-290), # frameF: FftFilter model on the C01 model of the library's plans (same operation order): worst observed deviation 0
